@@ -397,6 +397,39 @@ class _Interp:
             r.nodes[st["id"]] = f.parent_node
         else:
             raise ValueError(k)
+    def tstmt(self, b, st):
+        """statements of a tracked dataflow builder: arguments are ["i", index] or ["w", wire id]"""
+        r = self.r
+        k = st["k"]
+        r.log.append((st["id"], k))
+        A = lambda args: [a[1] if a[0] == "i" else r.wires[a[1]] for a in args]
+        if k == "tadd":
+            op = mk_op(st["op"])
+            md = st.get("md")
+            if st.get("via") == "extend":
+                (n,) = b.extend(op(*A(st["args"])))
+            else:
+                n = b.add(op(*A(st["args"])), metadata=md) if md is not None else b.add(op(*A(st["args"])))
+            r.nodes[st["id"]] = n
+            for j, wid in enumerate(st["outs"]):
+                if wid is not None:
+                    r.wires[wid] = n.out(j)
+        elif k == "load":
+            n = b.load(mk_val(st["val"]))
+            self.bind(st, n)
+        elif k == "track":
+            i = b.track_wire(r.wires[st["w"]])
+            assert i == st["idx"], (i, st)
+        elif k == "untrack":
+            r.wires[st["out"]] = b.untrack_wire(st["idx"])
+        elif k == "tout":
+            if st["mode"] == "tracked":
+                b.set_tracked_outputs()
+            else:
+                b.set_indexed_outputs(*A(st["args"]))
+        else:
+            raise ValueError(k)
+
     def node_of(self, b, ref):
         if ref == "in":
             return b.input_node
@@ -460,6 +493,19 @@ class _Interp:
         elif k == "cfg":
             b = Cfg(*[mk_ty(t) for t in p["in_tys"]])
             self.cfg_body(b, p)
+        elif k == "tdfg":
+            from hugr.build import TrackedDfg
+            b = TrackedDfg(*[mk_ty(t) for t in p["ins"]], track_inputs=p.get("track_inputs", True))
+            if not p.get("track_inputs", True):
+                for wid, port in zip(p["in_wires"], b.inputs()):
+                    r.wires[wid] = port
+                for wid in p.get("track_these", []):
+                    b.track_wire(r.wires[wid])
+            else:
+                for wid, port in zip(p["in_wires"], b.inputs()):
+                    r.wires[wid] = port
+            for st in p["stmts"]:
+                self.tstmt(b, st)
         elif k == "module":
             b = Module()
             for i, v in enumerate(p.get("consts", [])):
@@ -1185,7 +1231,123 @@ def mk_ty(t):  # noqa: F811
         return tys.RowVariable(0, tys.TypeBound.Copyable)
     return _orig_mk_ty(t)
 
+def gen_tracked_program(rng: random.Random, size=8) -> dict:
+    """A circuit-style program over hugr.build.TrackedDfg: commands take tracked indices and explicit wires in
+    mixed order; indices are rebound by argument position; linear values are used once (a linear wire is either
+    tracked and used through its index, or untracked and used as a wire)."""
+    nw = [0]
+    ns = [0]
+
+    def wire():
+        nw[0] += 1
+        return nw[0]
+
+    def sid():
+        ns[0] += 1
+        return ns[0]
+    ins = [rng.choice(["Q", "Q", "Q", "B", "I", "LQ"]) for _ in range(rng.randint(1, 5))]
+    in_wires = [wire() for _ in ins]
+    tracked = [t for t in ins]                     # index -> type (None once untracked)
+    free = []                                      # untracked wires [(wire, type)] not yet consumed (linear) / usable (copyable)
+    stmts = []
+
+    def idx_of(pred):
+        c = [i for i, t in enumerate(tracked) if t is not None and pred(t)]
+        return rng.choice(c) if c else None
+
+    def wire_of(pred):
+        c = [(w, t) for w, t in free if pred(t)]
+        if not c:
+            return None
+        w, t = rng.choice(c)
+        if is_linear(t):
+            free.remove((w, t))
+        return w
+    for _ in range(rng.randint(1, size)):
+        r = rng.random()
+        if r < 0.12:
+            v = [rng.choice(["true", "false"])] if rng.random() < 0.5 else ["float", 0.5]
+            w = wire()
+            stmts.append({"k": "load", "val": v, "id": sid(), "outs": [w]})
+            free.append((w, val_ty(v)))
+            continue
+        if r < 0.2 and free:
+            w, t = rng.choice(free)
+            free.remove((w, t))
+            stmts.append({"k": "track", "w": w, "idx": len(tracked), "id": sid()})
+            tracked.append(t)
+            if not is_linear(t):
+                free.append((w, t))
+            continue
+        if r < 0.27:
+            i = idx_of(lambda t: True)
+            if i is not None:
+                w = wire()
+                stmts.append({"k": "untrack", "idx": i, "out": w, "id": sid()})
+                free.append((w, tracked[i]))
+                tracked[i] = None
+            continue
+        # a command: a row of argument types, each served by a tracked index or an explicit wire
+        n = rng.randint(1, 3)
+        args, in_tys = [], []
+        used_idx = set()
+        for _j in range(n):
+            choice = rng.random()
+            i = idx_of(lambda t: True) if choice < 0.65 else None
+            if i is not None and i not in used_idx and not (is_linear(tracked[i]) and i in used_idx):
+                used_idx.add(i)
+                args.append(["i", i])
+                in_tys.append(tracked[i])
+            else:
+                w = None
+                for w0, t0 in list(free):
+                    if rng.random() < 0.6:
+                        w = w0
+                        t = t0
+                        if is_linear(t0):
+                            free.remove((w0, t0))
+                        break
+                if w is None:
+                    continue
+                args.append(["w", w])
+                in_tys.append(t)
+        if not args:
+            continue
+        extra = [rng.choice(["B", "I"]) for _ in range(rng.choice([0, 0, 1]))]
+        out_tys = list(in_tys) + extra               # outputs repeat the inputs (so rebinding keeps types), then extras
+        if rng.random() < 0.15 and len(in_tys) >= 2 and not is_linear(in_tys[-1]) and args[-1][0] == "w":
+            out_tys = in_tys[:-1] + extra             # a copyable wire argument that is only read
+        outs = []
+        for j, t in enumerate(out_tys):
+            if j < len(args) and args[j][0] == "i":
+                outs.append(None)                     # rebinds the tracked index
+                tracked[args[j][1]] = t
+            else:
+                w = wire()
+                outs.append(w)
+                free.append((w, t))
+        md = {"name": rng.choice(MD_VALUES)} if rng.random() < 0.25 else None
+        st = {"k": "tadd", "op": ["custom", "g%d" % rng.randint(0, 4), in_tys, out_tys], "args": args, "outs": outs,
+              "via": "add" if md is not None or rng.random() < 0.6 else "extend", "id": sid()}
+        if md is not None:
+            st["md"] = md
+        stmts.append(st)
+    lin_free = [(w, t) for w, t in free if is_linear(t)]
+    if not lin_free and rng.random() < 0.5:
+        stmts.append({"k": "tout", "mode": "tracked", "id": sid()})
+    else:
+        args = [["i", i] for i, t in enumerate(tracked) if t is not None and (is_linear(t) or rng.random() < 0.7)]
+        args += [["w", w] for w, _ in lin_free]
+        cop = [(w, t) for w, t in free if not is_linear(t)]
+        args += [["w", w] for w, _ in cop[: rng.randint(0, 2)]]
+        rng.shuffle(args)
+        stmts.append({"k": "tout", "mode": "indexed", "args": args, "id": sid()})
+    return {"root": "tdfg", "ins": ins, "in_wires": in_wires, "track_inputs": True, "stmts": stmts}
+
+
 def gen_program(rng: random.Random, root=None, **kw) -> dict:
+    if root == "tdfg":
+        return gen_tracked_program(rng)
     return Gen(rng, **kw).program(root)
 
 def size_of(prog) -> int:
